@@ -343,6 +343,29 @@ func (e *Engine) sprint(args []Value) Value {
 			}
 		}
 	}
+	if len(args) == 1 {
+		if iv, ok := args[0].(IfaceVal); ok && iv.typ != nil {
+			if st, isSl := iv.typ.Underlying().(*types.Slice); isSl {
+				if b, isB := st.Elem().Underlying().(*types.Basic); isB && b.Kind() == types.String {
+					if _, named := st.Elem().(*types.Named); !named {
+						out := StrVal{bytes: []*Term{mkInt('[')}}
+						for i, x := range sliceElems(iv.val.(SliceVal)) {
+							xs := x.(StrVal)
+							if xs.atom != nil {
+								return e.opaqueStr()
+							}
+							if i > 0 {
+								out.bytes = append(out.bytes, mkInt(' '))
+							}
+							out.bytes = append(out.bytes, xs.bytes...)
+						}
+						out.bytes = append(out.bytes, mkInt(']'))
+						return out
+					}
+				}
+			}
+		}
+	}
 	gs := make([]any, len(args))
 	for i, a := range args {
 		g, ok := goValue(a)
@@ -375,6 +398,25 @@ func (e *Engine) libIntrinsic(fn *ssa.Function, full string, args []Value) (Valu
 			}
 		}
 		return e.newError(e.opaqueStr(), wrapped...), true
+	case "errors.Join":
+		var wrapped []IfaceVal
+		for _, x := range variadic(args[0]) {
+			if iv, ok := x.(IfaceVal); ok && iv.typ != nil {
+				wrapped = append(wrapped, iv)
+			}
+		}
+		if len(wrapped) == 0 {
+			return IfaceVal{}, true
+		}
+		return e.newError(e.opaqueStr(), wrapped...), true
+	case "errors.As":
+		tgt := args[1].(IfaceVal)
+		pt, isPtr := tgt.typ.Underlying().(*types.Pointer)
+		tp, isP := tgt.val.(PtrVal)
+		if !isPtr || !isP || tp.slot == nil {
+			e.goPanic("errors.As: target must be a non-nil pointer")
+		}
+		return mkBool(e.errorsAs(args[0].(IfaceVal), pt.Elem(), tp.slot, 0)), true
 	case "errors.Is":
 		return mkBool(e.errorsIs(args[0].(IfaceVal), args[1].(IfaceVal), 0)), true
 	case "errors.Unwrap":
@@ -642,6 +684,50 @@ func (e *Engine) errorsIs(err, target IfaceVal, depth int) bool {
 		case SliceVal:
 			for _, x := range sliceElems(r) {
 				if e.errorsIs(x.(IfaceVal), target, depth+1) {
+					return true
+				}
+			}
+		}
+	}
+	return false
+}
+
+// errorsAs walks the error tree like errors.As: the first error whose dynamic
+// type is assignable to the target's element type is stored there.
+func (e *Engine) errorsAs(err IfaceVal, want types.Type, slot *Value, depth int) bool {
+	if err.typ == nil || depth > 50 {
+		return false
+	}
+	if it, isIface := want.Underlying().(*types.Interface); isIface {
+		if e.implementsVal(err, it) {
+			assign(slot, err)
+			return true
+		}
+	} else if types.Identical(err.typ, want) {
+		assign(slot, err.val)
+		return true
+	}
+	if err.typ != e.sh.marks.fmtErr {
+		if m := e.findMethod(err.typ, "As"); m != nil {
+			unsupported("errors.As on a type with an As method")
+		}
+	}
+	if err.typ == e.sh.marks.fmtErr {
+		fe := (*err.val.(PtrVal).slot).(*FmtErr)
+		for _, w := range fe.wrapped {
+			if e.errorsAs(w, want, slot, depth+1) {
+				return true
+			}
+		}
+		return false
+	}
+	if m := e.findMethod(err.typ, "Unwrap"); m != nil {
+		switch r := e.call(m, []Value{err.val}).(type) {
+		case IfaceVal:
+			return e.errorsAs(r, want, slot, depth+1)
+		case SliceVal:
+			for _, x := range sliceElems(r) {
+				if e.errorsAs(x.(IfaceVal), want, slot, depth+1) {
 					return true
 				}
 			}
